@@ -140,6 +140,11 @@ key (regenerated table `TplFlows.memoisedFunctions`: `TokenEncoder.strop(self, t
 subsequent_indent)`): every memoised function is determined by what its cache compares. -/
 theorem C10_memo_keys_determine_result_in_source : TplFlows.memoKeysDetermineResult = true := by decide
 
+/-- The memoised functions of the package (regenerated table) are exactly among the ones T5 is instantiated for: a newly
+memoised function — whatever its key types — is a broken obligation by name until its transparency has been argued. -/
+theorem C10_memoised_functions_are_the_modelled_ones :
+    TplFlows.memoisedFunctions.all (fun m => modelledMemoised.contains m.1) = true := by decide
+
 /-- Every filter, test and global registered in the real template environments of c, cpp, py and html (the ones no
 built-in template uses included) is classified, and none reads sibling types or process state except behind a
 sanitiser — apart from the expected names (`pickle`: cache fill state of the shared model objects, a known finding). -/
